@@ -164,6 +164,7 @@ class Producer(object):
         self._waitingMsgCount = 0
         self._waitingByteCount = 0
         self._outstanding = []  # All currently outstanding requests
+        self._submitting = []  # Requests whose send_messages() call has not returned yet
         self._batch_send_d = None  # Outstanding client request to send msgs
 
         # Are we compressing messages, or just sending 'raw'?
@@ -252,7 +253,11 @@ class Producer(object):
         self._outstanding.append(d)
         d.addBoth(self._remove_from_outstanding, d)
         # See if we have enough messages in the batch to do a send.
-        self._check_send_batch()
+        self._submitting.append(d)
+        try:
+            self._check_send_batch()
+        finally:
+            self._submitting.remove(d)
         return d
 
     def stop(self):
@@ -725,5 +730,9 @@ class Producer(object):
     def _cancel_outstanding(self):
         """Cancel all of our outstanding requests"""
         for d in list(self._outstanding):
-            d.addErrback(lambda _: None)  # Eat any uncaught errors
+            if d not in self._submitting:
+                d.addErrback(lambda _: None)  # Eat any uncaught errors
+            # else: the caller has not been handed this Deferred yet (a failure callback
+            # run by its send_messages() call stopped us); eating the cancellation here
+            # would report success to it.
             d.cancel()
